@@ -1,7 +1,7 @@
 /-
 C08 — property theorems (stage 1; extended below as the proofs are completed).
 -/
-import GoZero.C08.Spec
+import GoZero.C08.Proofs
 namespace GoZero.C08.Props
 open GoZero.C08 GoZero.C08.Spec
 
@@ -31,6 +31,46 @@ theorem pinned_dep_range_witness :
 /-- the repaired code rejects the same input (`errNumberRange`) -/
 theorem fixed_dep_range_rejected :
     (match unmarshal {} witnessDepRangeTy witnessDepRangeIn with | .error .range => true | _ => false) = true := by
+  decide +kernel
+
+/-- **accept_sound** — nothing invalid is ever accepted: for every struct type (any nesting of structs and
+pointers, any tag text), every unmarshaler configuration of the repaired code and every input document, a
+successful unmarshal yields a value that satisfies the declared constraints: required scalars supplied,
+`optional=dep` / `optional=!dep` respected, supplied numbers inside their range, supplied values among their
+options, target = supplied values with defaults filled. -/
+theorem accept_sound (c : Cfg) (hc : c.pinned = false) (ty : Ty) (j : J) (v : Val)
+    (h : unmarshal c ty j = .ok v) : satisfies c ty j v = true := by
+  unfold unmarshal at h
+  cases ty with
+  | struct fs =>
+    cases j with
+    | obj m =>
+      simp only at h
+      obtain ⟨vs, hvs, rfl⟩ := exceptMap_ok h
+      simpa [satisfies] using unmFields_sound c hc fs m vs hvs
+    | null => simp at h
+    | bool b => simp at h
+    | num s => simp at h
+    | str s => simp at h
+    | arr l => simp at h
+  | prim k => simp at h
+  | ptr t => simp at h
+  | slice t => simp at h
+  | map t => simp at h
+
+/-- non-vacuity: a nested type with every option kind, and an input that is accepted -/
+def exampleTy : Ty :=
+  .struct (.cons "A".toList (some "a,optional".toList) (.prim (.int 8))
+          (.cons "B".toList (some "b,optional=a,range=[1:5]".toList) (.ptr (.prim (.int 64)))
+          (.cons "C".toList (some "c,default=2.5,range=(0:10)".toList) (.prim (.float 64))
+          (.cons "D".toList (some "d,options=foo|bar".toList) (.prim .string)
+          (.cons "E".toList (some "e".toList)
+            (.struct (.cons "X".toList (some "x,string,range=[0:1]".toList) (.prim (.uint 8)) .nil)) .nil)))))
+def exampleIn : J :=
+  .obj [("a".toList, .num "7".toList), ("b".toList, .num "5".toList), ("d".toList, .str "bar".toList),
+        ("e".toList, .obj [("x".toList, .str "1".toList)])]
+
+example : (match unmarshal {} exampleTy exampleIn with | .ok v => satisfies {} exampleTy exampleIn v | _ => false) = true := by
   decide +kernel
 
 end GoZero.C08.Props
